@@ -40,7 +40,7 @@ Proof. exact consumes_minimal_lines_lemma. Qed.
 
 (* when a command starts, the descriptor holds exactly the lines that follow the command: a command reading everything gets exactly them, `read -r` gets exactly the next line and leaves the rest *)
 Theorem fd_position_after_command :
-  forall parser pf sts pend fed0 (d : dev) off c p fed' src' d' off' eof', parse_phase byte_ops parser pf sts pend fed0 SrcStdin d off false = (PhDone (PComplete c p), (fed', src', d', off', eof')) -> exists k, decides parser sts (if pend then fed0 else []) (if pend then 0 else 1)%nat (split_lines (concat d)) k (PComplete c p) /\ let following := skipn k (split_lines (concat d)) in concat d' = concat following /\ (forall sh evs, x_evs (fst (exec byte_ops CSlurp (mkX sh d' off' evs))) = evs ++ [Ev 2 [concat following] (s_status sh) off']) /\ (forall sh evs v, let y := fst (exec byte_ops (CRead true NL v) (mkX sh d' off' evs)) in get_var v (s_vars (x_sh y)) = read_value (fst (scan_line true (hd [] following))) /\ concat (x_in y) = concat (tl following) /\ x_off y = (off' + nlen (hd [] following))%N).
+  forall parser pf sts pend fed0 (d : dev) off c p fed' src' d' off' eof', parse_phase byte_ops parser pf sts pend fed0 SrcStdin d off false = (PhDone (PComplete c p), (fed', src', d', off', eof')) -> exists k, decides parser sts (if pend then fed0 else []) (if pend then 0 else 1)%nat (split_lines (concat d)) k (PComplete c p) /\ let following := skipn k (split_lines (concat d)) in concat d' = concat following /\ (forall sh evs, x_evs (fst (exec byte_ops CSlurp (mkX sh d' off' evs))) = evs ++ [Ev 2 [concat following] (s_status sh) off']) /\ (forall sh evs v, let y := fst (exec byte_ops (CRead true NL v) (mkX sh d' off' evs)) in (existsb (fun c => N.eqb (fst c) 0) (fst (scan_line true (hd [] following))) = false -> get_var v (s_vars (x_sh y)) = read_value (fst (scan_line true (hd [] following)))) /\ concat (x_in y) = concat (tl following) /\ x_off y = (off' + nlen (hd [] following))%N).
 Proof. exact fd_position_after_command_lemma. Qed.
 
 (* if k commands of the input A++B leave exactly B unread, the same k commands do the same (records, variables, aliases, options, position, pending buffer) whatever replaces B — a syntax error, nothing, anything — in any chunking (for scripts whose reads take whole lines, i.e. without `read -d`) *)
@@ -83,6 +83,11 @@ Theorem fuel_never_runs_out :
   forall parser (K fuel pf : nat) src (d : dev), ends_at_eof parser -> pend_depth parser K -> (1 <= K)%nat -> (src_bytes src d + 2 <= pf)%nat -> (pf * K + 1 <= fuel)%nat -> f_tag (model_run parser fuel pf src d) <> FOutOfFuel.
 Proof. exact fuel_never_runs_out_lemma. Qed.
 
+(* the `set -v` oracle clause accepts every observation without echoed lines and without the `probe vmark` record: it raises no alarm on scripts that do not use `set -v` *)
+Theorem echo_clause_quiet :
+  forall script t s off evs, forallb quiet_event evs = true -> echo_ok script (t, s, off, evs) = true.
+Proof. exact echo_clause_quiet_lemma. Qed.
+
 Print Assumptions model_refines_spec.
 Print Assumptions run_is_line_by_line.
 Print Assumptions chunking_irrelevant.
@@ -99,3 +104,4 @@ Print Assumptions oracle_sound.
 Print Assumptions table_parser_reads_lines.
 Print Assumptions table_parser_depth.
 Print Assumptions fuel_never_runs_out.
+Print Assumptions echo_clause_quiet.
